@@ -21,7 +21,7 @@ def model_to_script(i, ops):
 def random_script(rng, i):
     npeers = rng.randint(2, 3)
     nrepos = rng.randint(1, 3)
-    persistent = sorted(rng.sample(range(1, npeers + 1), rng.randint(0, 2)))
+    persistent = rng.choice([[], [], [1], [2], [1, 2]])      # few instances: one strict-conformance run per (capacity, persistent set)
     ops = []
     conn = set()
     nf = 0
@@ -31,7 +31,7 @@ def random_script(rng, i):
             ops.append(["stale_disconnect", rng.choice(sorted(conn))])
         if persistent and x < 0.10:
             # dial progress / reconnection timer of persistent peers
-            ops.append(rng.choice([["attempted", rng.choice(persistent)], ["wake", rng.choice([4000, 70000])], ["dialfail", rng.choice(persistent)]]))
+            ops.append(rng.choice([["attempted", rng.choice(persistent)], ["idle"], ["dialfail", rng.choice(persistent)]]))
         elif x < 0.15 or not conn:
             cand = [p for p in range(1, npeers + 1) if p not in conn]
             if cand:
@@ -220,22 +220,48 @@ def run(ctx):
 
 
 def model_conformance(ctx, events, thorough):
-    ep = os.path.join(ctx.work, "mevents.ndjson")
-    nm, keep, budget = 0, False, (15000 if thorough else 3000)
-    with open(ep, "w") as f:
-        for line in events:
-            if line.startswith('{"ev":"init"'):
-                keep = str(json.loads(line)["run"]).startswith("m") and nm < budget
-                nm += 1 if keep else 0
-            if keep:
-                f.write(line)
-    try:
-        okm, infom, _ = ctx.validate("TraceFetchSchedOp", "TraceFetchSchedOp.cfg", ep, timeout=3000, heap="8g", label="strict model conformance (informational)")
-    except vlib.ToolError as e:
-        return {"behaviours": nm, "accepted": None, "error": str(e)[:300]}
-    out = {"behaviours": nm, "accepted": okm, "rejected": infom.get("rejected")}
-    if not okm:
-        vlib.log(f"MODEL-DRIFT (not a violation): the real Service left FetchSched.tla's actions: {infom.get('rejected')}")
+    """Strict conformance (informational): the executions of the model's behaviours AND of the seeded random
+    scenarios (3 peers, 3 repositories, capacity 1-2, persistent peers) must be behaviours of FetchSched.tla's
+    actions. One log per instance (fetch capacity, set of persistent peers); scripted regressions are left out
+    (they use timer values the model does not have)."""
+    groups, cur, budget_m, budget_r = {}, None, (15000 if thorough else 3000), (3000 if thorough else 500)
+    nm = nr = 0
+    for line in events:
+        if line.startswith('{"ev":"init"'):
+            e = json.loads(line)
+            rid = str(e["run"])
+            cur = None
+            if rid.startswith("m") and nm < budget_m:
+                nm += 1
+                cur = (e["capacity"], tuple(e["persistent"]))
+            elif rid.startswith("r") and nr < budget_r:
+                nr += 1
+                cur = (e["capacity"], tuple(e["persistent"]))
+            if cur is not None:
+                groups.setdefault(cur, [])
+        if cur is not None:
+            groups[cur].append(line)
+    out = {"model_behaviours": nm, "random_runs": nr, "instances": len(groups), "accepted": True, "rejected": []}
+    ep = None
+    for k, (key, lines) in enumerate(sorted(groups.items())):
+        gp = os.path.join(ctx.work, f"opevents{k}.ndjson")
+        with open(gp, "w") as f:
+            f.writelines(lines)
+        if ep is None or len(lines) > out.get("_largest", 0):
+            ep, out["_largest"] = gp, len(lines)
+        try:
+            okm, infom, _ = ctx.validate("TraceFetchSchedOp", "TraceFetchSchedOp.cfg", gp, timeout=3000, heap="8g",
+                                         label=f"strict model conformance, capacity {key[0]} persistent {list(key[1])} (informational)")
+        except vlib.ToolError as e:
+            out["accepted"] = None
+            out["error"] = str(e)[:300]
+            continue
+        if not okm:
+            out["accepted"] = False
+            out["rejected"].append({"capacity": key[0], "persistent": list(key[1]), "at": infom.get("rejected")})
+    out.pop("_largest", None)
+    if out["accepted"] is not True:
+        vlib.log(f"MODEL-DRIFT (not a violation): the real Service left FetchSched.tla's actions: {out['rejected'][:3]} {out.get('error', '')}")
         return out
     # binding self-test: a log with one queue length changed / one emitted fetch dropped must be rejected
     lines = open(ep).read().splitlines()
